@@ -159,6 +159,11 @@ class CurveFitting(object):
         [-8, 12, 5]
         """
 
+        # If the input is another CurveFitting object, read its tables before
+        # cleaning up: It may be this very object
+        other = None
+        if len(args) == 1 and isinstance(args[0], CurveFitting):
+            other = (args[0]._x, args[0]._y)
         # Clean up the internal data tables and parameters
         self._x = []
         self._y = []
@@ -168,8 +173,7 @@ class CurveFitting(object):
         # If we have only one argument, it can be a single value or tuple/list
         elif len(args) == 1:
             if isinstance(args[0], CurveFitting):
-                self._x = args[0]._x
-                self._y = args[0]._y
+                self._x, self._y = other
             elif isinstance(args[0], (int, float, Angle)):
                 # Insuficient data for curve fitting. Raise ValueError
                 raise ValueError("Invalid number of input values")
